@@ -1,11 +1,14 @@
 (** Micro-step model of System.Start / System.Stop / stop and the context-guard goroutine of
     internal/actor/system.go (as it is in /repo now: the guard goroutine calls s.stop(false) WITHOUT taking
-    statusLock first).
+    statusLock first; Start runs its status switch AND the whole start-up chain - root creation included -
+    inside ONE statusLock critical section, the failure-path s.Stop(...) and the `go` statement come after the
+    deferred Unlock).
 
     One step = one access to state shared between goroutines:
       statusLock.Lock / the switch on s.status under the lock / the deferred Unlock,
-      the assignment system.Context = NewContext(...) of the first chain link (system_chains.go),
+      the assignment system.Context = NewContext(...) of the first chain link (system_chains.go; may fail),
       the rest of the start-up chain (metrics / remoting / cluster: may fail, may set clusterContext),
+      (in Start both chain steps are taken while the thread still holds statusLock)
       the `go` statement creating the context-guard goroutine,
       the unsynchronised reads `s.clusterContext != nil` and `s.Context != nil` in stop,
       clusterContext.Leave (request + blocking wait on leaveWait: NO timeout in the code),
@@ -43,9 +46,11 @@ Inductive kind : Type := KStart | KStop | KGuard | KCancel.
 Inductive pc : Type :=
 | Spawned (k : pc)                       (* goroutine / call created, has not run yet *)
 (* Start() *)
-| SLock | SCheck | SUnlock (r : res)
-| SSpawnRoot                             (* system.Context, err = NewContext(...) *)
-| SChain                                 (* initializeMetrics; initializeRemoting; initializeCluster *)
+| SLock | SCheck
+| SSpawnRoot                             (* system.Context, err = NewContext(...)                      - lock held *)
+| SChain                                 (* initializeMetrics; initializeRemoting; initializeCluster   - lock held *)
+| SUnlock (r : res)                      (* deferred Unlock; r = RNil: the chain succeeded, otherwise the state error *)
+| SUnlockFail                            (* deferred Unlock with startErr <> nil; then s.Stop(StopTimeout) *)
 | SGo                                    (* go func() { <-ctx.Done(); _ = s.stop(false) }() ; return nil *)
 (* stop(checkLog, timeout...) ; d = the timeout argument, None = s.options.StopTimeout *)
 | TLock (w : who) (d : option N) | TCheck (w : who) (d : option N) | TUnlock (w : who) (d : option N) (r : res)
@@ -176,26 +181,27 @@ Definition step_thread (c : cfg) (i : nat) (alt : N) (s : st) (p : pc) : option 
       match status s with
       | Started => Some (goto (set_check s i true Started) i (SUnlock RAlreadyStarted))
       | Stopped => Some (goto (set_check s i true Stopped) i (SUnlock RAlreadyStopped))
-      | Ready => Some (goto (set_check s i true Started) i (SUnlock RNil))
-      end
-  | SUnlock r =>
-      match r with
-      | RNil => Some (goto (set_lock s None) i SSpawnRoot)
-      | _ => Some (goto (set_lock s None) i (Done KStart r))
+      | Ready => Some (goto (set_check s i true Started) i SSpawnRoot)
       end
   | SSpawnRoot =>
       match alt with
       | 0 => Some (goto (set_hasCtx s) i SChain)
-      | 1 => Some (goto s i (TLock ByStart None))     (* NewContext failed (e.g. invalid advertise address): system.Context stays nil *)
+      | 1 => Some (goto s i SUnlockFail)               (* NewContext failed (e.g. invalid advertise address): system.Context stays nil *)
       | _ => None
       end
   | SChain =>
       match alt with
-      | 0 => Some (goto (set_clusterCtx s (cfg_cluster c)) i SGo)                       (* chain succeeded *)
-      | 1 => Some (goto s i (TLock ByStart None))                                      (* failed before clusterContext was assigned *)
-      | 2 => Some (goto (set_clusterCtx s (cfg_cluster c)) i (TLock ByStart None))     (* failed after it was assigned *)
+      | 0 => Some (goto (set_clusterCtx s (cfg_cluster c)) i (SUnlock RNil))      (* chain succeeded *)
+      | 1 => Some (goto s i SUnlockFail)                                          (* failed before clusterContext was assigned *)
+      | 2 => Some (goto (set_clusterCtx s (cfg_cluster c)) i SUnlockFail)         (* failed after it was assigned *)
       | _ => None
       end
+  | SUnlock r =>
+      match r with
+      | RNil => Some (goto (set_lock s None) i SGo)
+      | _ => Some (goto (set_lock s None) i (Done KStart r))
+      end
+  | SUnlockFail => Some (goto (set_lock s None) i (TLock ByStart None))
   | SGo => Some (goto (set_spawned s) i (Done KStart RNil))
   (* ---- stop ---- *)
   | TLock w d => match lock s with None => Some (goto (set_lock s (Some i)) i (TCheck w d)) | Some _ => None end
@@ -293,7 +299,7 @@ Definition stop_res_ok (seen : stat) (r : res) : Prop :=
 
 (** the pcs at which a thread holds statusLock *)
 Definition holder_pc (p : pc) : bool :=
-  match p with SCheck | SUnlock _ | TCheck _ _ | TUnlock _ _ _ => true | _ => false end.
+  match p with SCheck | SSpawnRoot | SChain | SUnlock _ | SUnlockFail | TCheck _ _ | TUnlock _ _ _ => true | _ => false end.
 Definition lock_pc (p : pc) : bool := match p with SLock | TLock _ _ => true | _ => false end.
 
 (** a thread that waits for the environment only *)
@@ -322,10 +328,11 @@ Fixpoint rank (p : pc) : nat :=
   | TCheck _ _ => 10
   | TLock _ _ => 11
   | GWait => 12
+  | SUnlockFail => 12
   | SGo => 14
-  | SChain => 15
-  | SSpawnRoot => 16
-  | SUnlock _ => 17
+  | SUnlock _ => 15
+  | SChain => 16
+  | SSpawnRoot => 17
   | SCheck => 18
   | SLock => 19
   | XCancel => 1
@@ -342,6 +349,13 @@ Fixpoint thread_steps (c : cfg) (evs : list ev) (s : st) : nat :=
       | Some s' => (match e with EStep _ _ => 1 | _ => 0 end + thread_steps c r s')%nat
       | None => thread_steps c r s
       end
+  end.
+
+(** k consecutive default-branch steps of thread j *)
+Fixpoint steps_of (c : cfg) (j : nat) (k : nat) (s : st) : option st :=
+  match k with
+  | O => Some s
+  | S k' => match step c (EStep j 0) s with Some s' => steps_of c j k' s' | None => None end
   end.
 
 (** no thread can step, whatever the clock *)
